@@ -150,7 +150,7 @@ def layoutOk (f : Frame) : Bool :=
   && (f.daOff == invalidOff || decide (f.xOff + f.xSize ≤ f.daOff))
   && decide (daEnd ≤ f.ppOff)
   && f.ppOff + f.ppSize == f.finalSize
-  && (!f.alignedVecSR || f.xOff % 16 == 0)
+  && (!f.alignedVecSR || f.xOff % f.srSize 1 == 0)
   && (if f.usesStack then (f.finalSize + f.arch.retSize) % f.finalAlign == 0 else f.finalSize == f.ppSize)
   && (f.hasDA || f.saOffSp == f.finalSize + f.arch.retSize)
 
